@@ -5,7 +5,7 @@
 
    The hand-written, TRUSTED part of the reading is Sched/SrcGlue.v (which the generated file has to import, so it cannot
    live here) plus the section "Glue" at the end of this file.  Everything else is proved. *)
-From Isobar Require Import Base.Prelude Sched.Model Sched.SrcGlue Generated.TablesTrack.
+From Isobar Require Import Base.Prelude Sched.Model Sched.NoteOffProofs Sched.SrcGlue Generated.TablesTrack.
 Local Open Scope Z_scope.
 
 (** * 1. Track.mute / unmute / nudge   (C06) *)
@@ -96,12 +96,6 @@ Qed.
 Theorem src_timeline_unschedule_missing tl tr :
   find_track (t_id tr) (tracks tl) = None -> src_timeline_unschedule tl tr = (tl, RTrackNotFound).
 Proof. intros H. unfold src_timeline_unschedule, track_in. rewrite H. reflexivity. Qed.
-
-Lemma find_track_id : forall l id tr, find_track id l = Some tr -> t_id tr = id.
-Proof.
-  induction l as [|t r IH]; intros id tr H; cbn [find_track] in H; [discriminate|].
-  destruct (t_id t =? id)%nat eqn:E; [inversion H; subst; apply Nat.eqb_eq; exact E | eapply IH; exact H].
-Qed.
 
 Theorem exec_unschedule_src cfg tl t :
   exec_op cfg tl (OUnschedule t) = match find_track t (tracks tl) with
